@@ -1,11 +1,13 @@
 import TbbVerif.Core.Proto
 import TbbVerif.Model.C06
+import TbbVerif.Model.C06Scan
 
 open TbbVerif
 
 def drivers : List (String × Proto.Driver) := [
   ("c06", C06.Drv.driver),
-  ("c06rd", C06.Drv.RD.driver)
+  ("c06rd", C06.Drv.RD.driver),
+  ("c06sp", C06.SP.Drv.driver)
 ]
 
 def main (args : List String) : IO UInt32 := Proto.mainOf drivers args
